@@ -858,6 +858,7 @@ type snapCase struct {
 	Blocks      []blockCase `json:"blocks"`
 	Split       int         `json:"split"`        // blocks[:Split] before the first close, the rest after the first reopen
 	TimeTarget0 bool        `json:"time_target0"` // utxo.UTXO_WRITING_TIME_TARGET = 0 (write at full speed) instead of Close()'s hurry-up
+	Yield       uint64      `json:"yield,omitempty"`  // != 0: the children run with VERIF_YIELD=<this> (seeded Gosched / <=200us sleeps at gocoin's vhook points)
 	Repeat      int         `json:"repeat,omitempty"` // witnesses of scheduling-dependent defects: run the scenario this many times
 }
 
@@ -1005,6 +1006,7 @@ func diffDump(want, got dump) string {
 // --- child side
 
 type job struct {
+	Yield       uint64      `json:"yield"`
 	Dir         string      `json:"dir"`
 	Compress    bool        `json:"compress"` // NewUnspentOpts.CompressRecords
 	Convert     bool        `json:"convert"`  // what tools/utxo does: open, re-serialize every record compressed, flag, save
@@ -1211,6 +1213,9 @@ func runPhase(tmp string, n int, j job) (*result, error) {
 	}
 	cmd := exec.Command(os.Args[0], "-test.run", "^$")
 	cmd.Env = append(os.Environ(), "VERIF_C10_JOB="+jf, "VERIF_REPLAY=", "VERIF_STATS=")
+	if j.Yield != 0 {
+		cmd.Env = append(cmd.Env, fmt.Sprintf("VERIF_YIELD=%d", j.Yield+uint64(n)))
+	}
 	var stderr bytes.Buffer
 	cmd.Stderr = &stderr
 	if err := cmd.Start(); err != nil {
@@ -1307,7 +1312,7 @@ func checkSnapshot1(c snapCase) error {
 	}
 
 	// phase 1: fresh directory, commit blocks[:Split], close
-	r, err := runPhase(tmp, phase, job{Dir: dir, Compress: compress1, Blocks: c.Blocks[:c.Split], TimeTarget0: c.TimeTarget0})
+	r, err := runPhase(tmp, phase, job{Yield: c.Yield, Dir: dir, Compress: compress1, Blocks: c.Blocks[:c.Split], TimeTarget0: c.TimeTarget0})
 	if err != nil {
 		return err
 	}
@@ -1330,7 +1335,7 @@ func checkSnapshot1(c snapCase) error {
 	}
 
 	if c.Mode == "compressed_converted" {
-		r, err = runPhase(tmp, phase, job{Dir: dir, Convert: true})
+		r, err = runPhase(tmp, phase, job{Yield: c.Yield, Dir: dir, Convert: true})
 		if err != nil {
 			return fmt.Errorf("conversion: %v", err)
 		}
@@ -1348,7 +1353,7 @@ func checkSnapshot1(c snapCase) error {
 	}
 
 	// phase 2: reopen, compare, commit the rest, close
-	r, err = runPhase(tmp, phase, job{Dir: dir, Compress: compress2, Blocks: c.Blocks[c.Split:], TimeTarget0: c.TimeTarget0})
+	r, err = runPhase(tmp, phase, job{Yield: c.Yield, Dir: dir, Compress: compress2, Blocks: c.Blocks[c.Split:], TimeTarget0: c.TimeTarget0})
 	if err != nil {
 		return fmt.Errorf("after reopening: %v", err)
 	}
@@ -1379,7 +1384,7 @@ func checkSnapshot1(c snapCase) error {
 	}
 
 	// phase 3: reopen once more and compare
-	r, err = runPhase(tmp, phase, job{Dir: dir, Compress: compress2})
+	r, err = runPhase(tmp, phase, job{Yield: c.Yield, Dir: dir, Compress: compress2})
 	if err != nil {
 		return fmt.Errorf("after the second reopening: %v", err)
 	}
@@ -1398,6 +1403,9 @@ func checkSnapshot1(c snapCase) error {
 func genSnapshot(t *rapid.T, thorough bool) snapCase {
 	c := snapCase{Mode: rapid.SampledFrom([]string{"plain", "compressed_fresh", "compressed_fresh", "compressed_converted", "compressed_converted", "compress_option_on_plain_dir"}).Draw(t, "mode")}
 	c.TimeTarget0 = rapid.Bool().Draw(t, "tt0")
+	if rapid.Bool().Draw(t, "yield") {
+		c.Yield = uint64(rapid.IntRange(1, 1<<30).Draw(t, "yieldseed"))
+	}
 	nb := rapid.IntRange(1, 5).Draw(t, "nblocks")
 	height := rapid.SampledFrom([]uint32{1, 250, 65533, 800000, 0xfffffff0}).Draw(t, "base")
 	m := model{}
@@ -1523,6 +1531,9 @@ func TestSnapshot(t *testing.T) {
 		}
 		if c.Split < len(c.Blocks) {
 			r.Class("commits_after_reopen")
+		}
+		if c.Yield != 0 {
+			r.Class("seeded_yields")
 		}
 		for _, b := range c.Blocks {
 			if b.Save {
